@@ -271,6 +271,8 @@ class C08World(C01World):
                 v = self.rep.violations[k]
                 if "lock" not in v["key"]:
                     v["key"]["lock"] = self.lock_variant
+                if self.cfg.get("init") and "initial_state" not in v["key"]:
+                    v["key"]["initial_state"] = self.cfg["init"]
 
 
 def run_config(cfg: Dict[str, Any]) -> Dict[str, Any]:
